@@ -132,8 +132,8 @@ theorem idempotent_partial (E : Env) (hU : UnifyLaws E) (fuel fuel' : Nat) (v r 
 
 /-! ## Unknown and null inputs -/
 
-/-- A null input converts to the null of the target type (placeholder-free target,
-target; through `Convert` or any conversion `GetConversion*` returns). -/
+/-- A null input converts to the null of the target type (placeholder-free target;
+through `Convert` or any conversion `GetConversion*` returns). -/
 theorem null_sound_partial (E : Env) (hU : UnifyLaws E) (fuel : Nat) (uns : Bool) (v : Value) (want : Ty)
     (p : Plan) (hp : RegularPair v want) (hg : getConv E v.ty want uns = some p)
     (hm : v.isMarked = false) (hk : v.isKnown = true) (hn : v.isNull = true) :
